@@ -1,12 +1,14 @@
 #!/bin/sh
-# seed_run_wt.sh <seed-id> <tier> <props...> : like seed_run.sh but in a scratch worktree of /repo (VERIF_REPO), so that
+# seed_run_wt.sh <seed-id | /path/to/patch.diff> <tier> <props...> : like seed_run.sh but in a scratch worktree of /repo (VERIF_REPO), so that
 # /repo itself stays untouched (usable while other checks run against /repo). The worktree is removed afterwards.
 id=$1; tier=$2; shift 2
 cd /verif
+patch=/verif/seeded/$id/patch.diff
+case "$id" in */*) patch=$id; id=$(basename $(dirname $id));; esac
 wt=/tmp/wt/run-$id
 git -C /repo worktree remove --force $wt >/dev/null 2>&1
 git -C /repo worktree add -q --detach $wt HEAD || exit 2
-git -C $wt apply /verif/seeded/$id/patch.diff || { echo "cannot apply $id"; git -C /repo worktree remove --force $wt; exit 2; }
+git -C $wt apply $patch || { echo "cannot apply $id"; git -C /repo worktree remove --force $wt; exit 2; }
 for p in "$@"; do
   out=$(VERIF_REPO=$wt VERIF_EVIDENCE_DIR=/verif/.work/seed-evidence python3 check.py $p --tier $tier 2>&1); rc=$?
   echo "seed $id -> $p [$tier] rc=$rc viol=$(echo "$out" | grep -c '^VIOLATION') drift=$(echo "$out" | grep -c '^DRIFT') $(echo "$out" | grep -m1 -e '^  formula' -e INFRA | cut -c1-160)"
